@@ -20,7 +20,8 @@ for f in sorted(glob.glob(f"{HERE}/seeded/*/*/meta.json")):
         if v["exit"] == 1 and v["what"]:
             first = v["what"][0].replace("|", "/")[:160]
             break
-    flag = " (missed at first, see below)" if m.get("initially_missed") else (" (at first without a failing input)" if m.get("initially_without_failing_input") else "")
+    missed_before = m.get("initially_missed") or any(r.get("caught") is False for r in m.get("earlier_runs", []))
+    flag = " (missed at first, see below)" if missed_before else (" (at first without a failing input)" if m.get("initially_without_failing_input") else "")
     rows.append(f"| {pid} #{name} | {what} | {conf} | {(', '.join(caught_by) if caught_by else '**missed**') + flag} | {first} |")
 table = "| change | what it does | confirmed | caught by | first report |\n|---|---|---|---|---|\n" + "\n".join(rows) + "\n"
 p = f"{HERE}/DESIGN.md"
